@@ -91,6 +91,10 @@ func init() {
 	reg(RT+".Tier", func(in *Interp, fr *frame, args []Value) Value {
 		return in.tb.Const(64, uint64(in.ex.Tier))
 	})
+	reg(RT+".LoopBound", func(in *Interp, fr *frame, args []Value) Value {
+		in.loopBound = int32(cint(in, args[0], "LoopBound"))
+		return nil
+	})
 	reg(RT+".Symbolic", func(in *Interp, fr *frame, args []Value) Value { return in.tb.T })
 	reg(RT+".TempDir", func(in *Interp, fr *frame, args []Value) Value { return "/data" })
 	reg(RT+".Stub", func(in *Interp, fr *frame, args []Value) Value {
